@@ -30,8 +30,9 @@ OPERAND_FNS = {P + "expect_reg": "reg", P + "expect_lit_or_reg": "imm5|reg", P +
                P + "expect": "label"}
 
 
-def success_walk(fn, entry, limit=400):
-    """blocks along the straight success path from entry (takes the Continue edge of every `?`)"""
+def success_walk(fn, entry, limit=400, variant=None):
+    """blocks along the straight success path from entry (takes the Continue edge of every `?`); with variant=(adt, idx) a further match on
+    that enum inside the arm (`Push | Pop => { ..; match kind { Push => .., Pop => .. } }`) is followed along the edge of that variant"""
     out = []
     b = entry
     seen = set()
@@ -48,6 +49,8 @@ def success_walk(fn, entry, limit=400):
             sw = kit.switch_on_discr_of_local(fn, b)
             if sw and sw[1] == "core::ops::control_flow::ControlFlow":
                 b = {v: x for v, x in t["targets"]}.get(0)
+            elif sw and variant is not None and sw[1] == variant[0]:
+                b = {v: x for v, x in t["targets"]}.get(variant[1], t["otherwise"])
             else:
                 break
         else:
@@ -164,7 +167,7 @@ def run(ctx):
     for vi, tb in sorted(ptargets.items()):
         kind = knames[vi]
         ctx.instance(1)
-        path = success_walk(pi, tb)
+        path = success_walk(pi, tb, variant=(IK, vi))
         order = {}
         for b in path:
             t = pi.term(b)
@@ -608,6 +611,30 @@ def run(ctx):
         first = [b for b, t in pushes if "orig" in expr_str(tf.expr(t["args"][1], 4, stop={"named"}))]
         second = [b for b, t in pushes if EMIT.split("::")[-1] in expr_str(tf.expr(t["args"][1], 10))]
         ok = len(first) == 1 and len(second) == 1 and tf.dominates(first[0], emits[0]) and tf.dominates(emits[0], second[0])
+    if not ok and not pushes:
+        # adaptor form: once(Ok(orig)).chain(air.into_iter().map(|s| s.emit())).collect::<Result<Vec<_>>>() - chain yields its first operand's
+        # elements before the second's, map keeps the order of the statements, collect into Result stops at the first failure
+        for b, t, c in tf.calls():
+            if not (c and re.search(r"Iterator>?::collect$", c) and "Result<alloc::vec::Vec<u16>" in str(t["f"].get("targs") or t["f"].get("fn_full") or "")):
+                continue
+            x = kit.strip_refs(tf.expr(t["args"][0], 14))
+            if not (x[0] == "call" and re.search(r"Iterator>?::chain$", str(x[1])) and len(x[2]) == 2):
+                continue
+            a_, b_ = kit.strip_refs(x[2][0]), kit.strip_refs(x[2][1])
+            a_ok = a_[0] == "call" and str(a_[1]).endswith("sources::once::once") and "orig(" in expr_str(a_, 300)
+            b_ok = False
+            if b_[0] == "call" and re.search(r"Iterator>?::map$", str(b_[1])) and len(b_[2]) == 2:
+                src_, fn_ = kit.strip_refs(b_[2][0]), kit.strip_refs(b_[2][1])
+                whole = src_[0] == "call" and re.search(r"IntoIterator>::into_iter$|::iter$", str(src_[1])) and kit.strip_refs(src_[2][0])[0] == "arg"
+                emits_ = False
+                if fn_[0] == "agg" and fn_[1][0] == "closure" and fn_[1][1] in prog.fns:
+                    g_ = prog.fns[fn_[1][1]]
+                    emits_ = [c2 for b2, t2, c2 in g_.calls()] == [EMIT] and not kit.loops(g_)
+                elif fn_[0] in ("fn", "const") and EMIT in str(fn_):
+                    emits_ = True
+                b_ok = bool(whole) and emits_
+            if a_ok and b_ok:
+                ok = True
     ctx.oblig(ok, {"try_from": "push(orig); for stmt { push(emit(stmt)?) }"}, "dominance")
     if not ok:
         ctx.violation("image-order", tf.file_line(), "RunEnvironment::try_from does not build [origin, emit(stmt 0), emit(stmt 1), ...]")
